@@ -485,7 +485,7 @@ pub fn bursts(ctx: &Ctx) -> Report {
             rep.count("bursts_followed_by_eof_checked", 1);
         }
         // one message larger than a megabyte in front of ordinary ones, cut near its header
-        if i % 8 == 1 {
+        if i % 8 == 1 && !ctx.tiny {
             let big = 1_048_576 + rng.usize(3_000_000);
             let plan: Vec<(Resp, Option<Vec<RespCtl>>)> = vec![
                 (Resp::Entry { dn: b"e=big".to_vec(), attrs: vec![(b"a".to_vec(), vec![vec![0x5a; big]])] }, None),
